@@ -223,9 +223,9 @@ class RecheckCheck:
         # R
         Ps = [32768] if quick else [16384, 32768, 65536]
         for P in Ps:
-            for sh in (["S1", "D1", "D2n", "D3", "D3n", "D3d"] if quick
-                       else ["S1", "D1", "D2n", "D3", "D3s", "D3n", "D3d",
-                             "D4"]):
+            for sh in (["S1", "D1", "D1n", "D2n", "D3", "D3n", "D3d"] if quick
+                       else ["S1", "D1", "D1n", "D2n", "D3", "D3s", "D3n",
+                             "D3d", "D4"]):
                 n = world.nfiles(sh)
                 if n <= 2:
                     alpha = e1.r_alphabet(P, "quick", n)
@@ -446,6 +446,9 @@ class RecheckCheck:
         res = core.Result()
         seed = g["seed"]
         fams = families(g["tier"], world.nfiles(g["shape"]))
+        if g["shape"] == "D1n":
+            # a v2-only metafile cannot tell this shape from a single file
+            fams = [f for f in fams if "v2" not in f.lower()]
         confirmed = {}
         for sizes in e1.iter_sizes(g["shape"], g["alpha"], g["first"]):
             if sum(sizes) == 0:
